@@ -40,7 +40,7 @@ Requests ==
           <<"apply_policies", "POST", NoArg>>, <<"validate_policies", "POST", NoArg>>, <<"revert_to_last_loaded", "POST", NoArg>>,
           <<"nonsense", "GET", NoArg>>}
          \cup (IF WrongVerbs THEN {<<"load_flows", "GET", NoArg>>, <<"validate_flows", "GET", NoArg>>, <<"doctor", "POST", NoArg>>,
-                                   <<"handshake", "PUT", NoArg>>, <<"discover", "POST", NoArg>>, <<"apply_flows", "POST", NoArg>>,
+                                   <<"handshake", "PUT", NoArg>>, <<"discover", "POST", NoArg>>, <<"apply_flows", "POST", NoArg>>, <<"configuration", "GET", NoArg>>,
                                    <<"on_haproxy_error", "POST", [NoArg EXCEPT !.txns = 1]>>} ELSE {})
     ELSE {<<"validate_policies", "POST", NoArg>>, <<"apply_policies", "POST", NoArg>>, <<"revert_to_last_loaded", "POST", NoArg>>,
           <<"revert_to_diagnosis_free", "POST", NoArg>>,
